@@ -4,6 +4,16 @@ Interleaving model of connection.waitRead / waitReadWithTimeout (connection_impl
 poller's inputAck (connection_reactor.go), closers (onClose / onHup) and the read timer.
 One model step per atomic step of the Go code.  One reader (the contract), any number of deliveries,
 closers and successive reads.  Core Lean only.
+
+Tied to the code by trace conformance (lean/Driver/Read.lean replays the traces of the real code under the
+controlled scheduler, go/inpkg/sched_read.go) and by the sync-operation lists of Netpoll.Tie.ReadFlush.
+Read off the code while building that tie (each is a path the real traces take):
+  * the deadline branch of waitRead: an already expired read deadline returns ErrReadTimeout right after
+    publishing waitReadSize, without arming the timer and without a second look at the buffer (`callX`);
+  * a user Close() that loses closeBy to the peer's hang-up still stores closing := user (`forceUser`), so a
+    reader may get ErrEOF while closing = user, or ErrConnClosed after a peer close: the error class is
+    therefore stated with the ghosts `peerClosed` / `userClosed`, not with the value of `closing`;
+  * the finalizer (run by a user Close) resets the input length to 0 when it finds the buffer empty (`closeBuf`).
 -/
 namespace Netpoll.Conn.Read
 
@@ -21,6 +31,8 @@ deriving Repr, DecidableEq
 /-- program counter of the reader inside one call of waitRead(n) -/
 inductive RPc where
   | idle                       -- between calls
+  | fastX (n : Nat)                       -- expired deadline: `if n <= Len() { return nil }`
+  | storeX (n : Nat) (seen : Nat)         -- expired deadline: store waitReadSize, then `timeout <= 0`: ErrReadTimeout
   | fast (n : Nat) (timed : Bool)         -- `if n <= Len() { return nil }`
   | store (n : Nat) (timed : Bool)        -- `atomic.StoreInt64(&c.waitReadSize, n)` (deferred reset to 0)
   | arm (n : Nat)                         -- timed: NewTimer / Reset
@@ -56,11 +68,14 @@ structure S where
   p : PPc := .idle
   c : CPc := .none
   lenSeen : Nat := 0            -- poller: the length value returned by bookAck
-  results : List (Nat × Result × Nat × Nat) := []   -- ghost: (n, result, Len() seen at the decision, closing at return), newest first
+  peerClosed : Bool := false    -- ghost: the hang-up won closeBy(poller)
+  userClosed : Bool := false    -- ghost: a user Close() won closeBy(user) or forced closing := user
+  results : List (Nat × Result × Nat × Bool × Bool) := []   -- ghost: (n, result, Len() seen at the decision, peerClosed, userClosed at return), newest first
 deriving Repr, DecidableEq
 
 inductive Act where
   | call (n : Nat) (timed : Bool)     -- the reader starts waitRead(n), n > 0
+  | callX (n : Nat)                   -- ... with a read deadline that has already expired
   | rstep                             -- the reader's next atomic step (not the blocking receive)
   | recvSlot                          -- blocking receive / select picks readTrigger
   | recvTick                          -- select picks timer.C
@@ -68,6 +83,8 @@ inductive Act where
   | deliver (k : Nat)                 -- the poller starts inputAck(k), k > 0
   | pstep
   | closeUser | closePeer             -- CAS(closing, 0, w) by a closer (any number may try)
+  | forceUser                         -- a user Close() whose CAS failed: `c.force(closing, user)`
+  | closeBuf                          -- the finalizer's closeBuffer: `inputBuffer.Close()` stores length 0
   | cstep                             -- the winning closer's triggerRead
   | fire                              -- the timer fires
 deriving Repr, DecidableEq
@@ -76,9 +93,12 @@ def trySend (s : S) (t : Tok) : S := if s.slot.isNone then { s with slot := some
 
 def step (s : S) : Act → Option S
   | .call n timed => if s.r = .idle ∧ n > 0 then some { s with r := .fast n timed } else none
+  | .callX n => if s.r = .idle ∧ n > 0 then some { s with r := .fastX n } else none
   | .rstep =>
     match s.r with
-    | .fast n timed => if n ≤ s.inLen then some { s with r := .idle, results := (n, .ok, s.inLen, s.closing) :: s.results } else some { s with r := .store n timed }
+    | .fastX n => if n ≤ s.inLen then some { s with r := .idle, results := (n, .ok, s.inLen, s.peerClosed, s.userClosed) :: s.results } else some { s with r := .storeX n s.inLen }
+    | .storeX n seen => some { s with waitSize := n, r := .unstore n .timeout seen }
+    | .fast n timed => if n ≤ s.inLen then some { s with r := .idle, results := (n, .ok, s.inLen, s.peerClosed, s.userClosed) :: s.results } else some { s with r := .store n timed }
     | .store n timed => some { s with waitSize := n, r := if timed then .arm n else .chkLen n false }
     | .arm n => some { s with timerRunning := true, r := .chkLen n true }
     | .chkLen n timed =>
@@ -96,7 +116,7 @@ def step (s : S) : Act → Option S
       if s.timerRunning then some { s with timerRunning := false, r := .unstore n res seen }
       else if s.tick then some { s with tick := false, r := .unstore n res seen }
       else none    -- would block for ever on `<-timer.C` (never reachable: see `Good`)
-    | .unstore n res seen => some { s with waitSize := 0, r := .idle, results := (n, res, seen, s.closing) :: s.results }
+    | .unstore n res seen => some { s with waitSize := 0, r := .idle, results := (n, res, seen, s.peerClosed, s.userClosed) :: s.results }
     | _ => none
   | .recvSlot =>
     match s.r, s.slot with
@@ -113,15 +133,17 @@ def step (s : S) : Act → Option S
     | _ => none
   | .consume k =>
     if s.r = .idle ∧ k ≤ s.inLen ∧ (s.results.head?.map (·.2.1)) = some .ok then some { s with inLen := s.inLen - k } else none
-  | .deliver k => if s.p = .idle ∧ k > 0 ∧ s.closing ≠ 2 then some { s with p := .publish k } else none
+  | .deliver k => if s.p = .idle ∧ k > 0 ∧ s.peerClosed = false then some { s with p := .publish k } else none
   | .pstep =>
     match s.p with
     | .publish k => some { s with inLen := s.inLen + k, lenSeen := s.inLen + k, p := .loadWait }
     | .loadWait => if s.lenSeen ≥ s.waitSize then some { s with p := .send } else some { s with p := .idle }
     | .send => some { (trySend s .data) with p := .idle }
     | .idle => none
-  | .closeUser => if s.closing = 0 then some { s with closing := 1, c := .sendClosed } else none
-  | .closePeer => if s.closing = 0 ∧ s.p = .idle then some { s with closing := 2, c := .sendEOF } else none
+  | .closeUser => if s.closing = 0 then some { s with closing := 1, c := .sendClosed, userClosed := true } else none
+  | .closePeer => if s.closing = 0 ∧ s.p = .idle then some { s with closing := 2, c := .sendEOF, peerClosed := true } else none
+  | .forceUser => if s.closing ≠ 0 then some { s with closing := 1, userClosed := true } else none
+  | .closeBuf => if s.userClosed then some { s with inLen := 0 } else none
   | .cstep =>
     match s.c with
     | .sendClosed => some { (trySend s .errClosed) with c := .none }
